@@ -30,7 +30,7 @@ m = {
                  "kind_free_text": "symbolic executor over `cargo +nightly rustc -Zunpretty=mir` dumps of /repo's crates (regenerated every run), z3 for branch feasibility and oracle obligations, Python library models, Rust replay binary against the real crates"}],
     "checks": checks,
     "not_applicable": na,
-    "notes": "Exit codes of ./check: 0 = all obligations discharged; 1 = VIOLATION confirmed on the real build; 2 = INCONCLUSIVE (unmodelled callee, solver unknown, engine/real disagreement, vacuity guard) - never reported as success.",
+    "notes": "Exit codes of ./check: 0 = all obligations discharged; 1 = VIOLATION confirmed on the real build; 2 = INCONCLUSIVE (unmodelled callee, solver unknown, engine/real disagreement, vacuity guard) - never reported as success. Known findings (known_findings.json): C04 and C03 digit-suffix collision of the de-duplication utility, C12 char examples not encodable; each prints a KNOWN-FINDING line and exits 0. seeded/ holds 181 confirmed seeded changes with the verdict of each check (tools/seeded_run.py), refactorings/ six behaviour-preserving refactorings on which every check must exit 0 (tools/refactor_run.sh). Thorough tiers take 10 s - 25 min each (C12 longest).",
 }
 json.dump(m, open(os.path.join(V, "MANIFEST.json"), "w"), indent=1)
 print("claimed:", [c["property_id"] for c in checks])
